@@ -14,8 +14,8 @@ Init == tid \in 1..N /\ l = 1 /\ lids = {} /\ cached = {} /\ bad = {} /\ mode = 
 \* fresh answer under the CURRENT configuration.
 Ok(ans, res, t, md, st) == IF t \in st THEN \E m \in 1..Len(ans) : res = ans[m] ELSE res = ans[md]
 StepVerdict(tr, s, seen, md, st) ==
-  CASE s.op = "parse"    -> (IF s.t \in st \/ Ok(tr.texts[s.t].fp, s.res, s.t, md, st) THEN {} ELSE {IF md = 1 /\ st = {} THEN "parse_depends_on_history" ELSE "parse_ignores_configuration"})
-    [] s.op = "tokenize" -> (IF Ok(tr.texts[s.t].ft, s.res, s.t, md, st) THEN {} ELSE {IF md = 1 /\ st = {} THEN "tokenize_depends_on_history" ELSE "tokenize_ignores_configuration"})
+  CASE s.op = "parse"    -> (IF s.t \in st \/ Ok(tr.texts[s.t].fp, s.res, s.t, md, st) THEN {} ELSE {IF md = 1 /\ st = {} THEN "parse_depends_on_history" ELSE "note_parse_ignores_configuration"})
+    [] s.op = "tokenize" -> (IF Ok(tr.texts[s.t].ft, s.res, s.t, md, st) THEN {} ELSE {IF md = 1 /\ st = {} THEN "tokenize_depends_on_history" ELSE "note_tokenize_ignores_configuration"})
                             \cup (IF s.lid # 0 /\ s.lid \in seen THEN {"token_list_not_a_copy"} ELSE {})
     \* a brand-new default parser created AFTER the history answers like the one created before it (nothing process-wide was left behind)
     [] s.op = "fparse"    -> (IF s.res = tr.texts[s.t].fp[1] THEN {} ELSE {"new_parser_depends_on_process_history"})
